@@ -38,7 +38,7 @@ class ExcRef(ClassRef):
 
 
 class Interp:
-    def __init__(self, modules, enums=(), exceptions=(), max_steps=20000):
+    def __init__(self, modules, enums=(), exceptions=(), max_steps=2000000):
         """modules: list of ast.Module; classes are collected by name (later wins); enums: names of Enum classes"""
         self.classes, self.enums = {}, {}
         self.steps, self.max_steps = 0, max_steps
